@@ -1,6 +1,6 @@
 (* Non-vacuity: concrete graphs meeting the hypotheses of the C02 theorems. *)
 From V Require Import Common.Base C02.Graph C02.Order C02.SpecESM C02.Wrap C02.Resolve C02.ResolveSpec
-  C02.DataUrl C02.SpecDataUrl C02.OrderProofs C02.OrderEsmProofs C02.ResolveProofs C02.WrapProofs C02.DataUrlProofs C02.Emit C02.EmitProofs C02.ResolveChainProofs C02.ResolveDen C02.SpecDenProofs C02.StarHitsProofs C02.StarDenProofs C02.LinkDenProofs C02.ResolveStarsProofs C02.EvalOrder C02.EvalOrderProofs.
+  C02.DataUrl C02.SpecDataUrl C02.OrderProofs C02.OrderEsmProofs C02.ResolveProofs C02.WrapProofs C02.DataUrlProofs C02.Emit C02.EmitProofs C02.ResolveChainProofs C02.ResolveDen C02.SpecDenProofs C02.StarHitsProofs C02.StarDenProofs C02.LinkDenProofs C02.ResolveStarsProofs C02.EvalOrder C02.EvalOrderProofs C02.WrapMinProofs C02.WrapGraph C02.WrapExactProofs.
 
 (* diamond with a back edge: 1 -> 2,3 ; 2 -> 4 ; 3 -> 4 ; 4 -> 1 (cycle); file 0 is the runtime *)
 Definition ex_graph : graph :=
@@ -213,3 +213,22 @@ Proof.
     assert (0 <= b mod 16 < 16) by (apply Z.mod_pos_bound; lia).
     constructor; [unfold b64_char; lia|]. constructor; [unfold b64_char; lia|exact IH].
 Qed.
+
+(* wrap_minimal / wrap_exact / classified_mixed_order_is_native on ex_wrap: the side condition holds,
+   file 2 is wrapped because it is required, 3 and 4 because a wrapped file imports them; the derived
+   evaluation-order graph carries the model's wrap flags and its two traces coincide *)
+Definition ex_wrap_order : list nat := [0; 4; 3; 2; 1]%nat.
+Example ex_wrap_targets_ok : targets_ok ex_wrap ex_wrap_order = true.
+Proof. vm_compute. reflexivity. Qed.
+Example ex_wrap_reasons :
+  req_dyn ex_wrap ex_wrap_order 2 /\ In 3%nat (all_targets (getm ex_wrap 2)) /\ In 4%nat (all_targets (getm ex_wrap 3)).
+Proof.
+  split; [|split; cbn; auto].
+  exists 1%nat, (mkRec (Some 2%nat) KRequire false false). cbn. auto 10.
+Qed.
+Example ex_wrap_egraph :
+  option_map (fun st => map e_wrapped (egraph_of ex_wrap ex_wrap_order st)) (scan_steps12 true true ex_wrap ex_wrap_order)
+  = Some [false; true; true; true; true]
+  /\ option_map (fun st => bundle_trace (egraph_of ex_wrap ex_wrap_order st) 1) (scan_steps12 true true ex_wrap ex_wrap_order)
+     = Some (Some [EvStart 1; EvStart 4; EvEnd 4; EvStart 3; EvEnd 3; EvStart 2; EvEnd 2; EvEnd 1]).
+Proof. vm_compute. split; reflexivity. Qed.
